@@ -107,6 +107,38 @@ def spec_check_2(ctx: Ctx) -> None:
                         why = "" if ok else "the compared sequence is not the specs of all arguments"
                     else:
                         why = f"the test `{unparse(el)}` does not compare whole specs with the first one"
+    if not ok:
+        # the same test as a loop: for s in X: if s != X[0]: raise  (== with the wrong
+        # polarity, identity, or a sliced X are not accepted)
+        def specs_of_all(seq, at):
+            if not isinstance(seq, ast.Name):
+                return False
+            for s_ in fl.rdefs(seq.id, at):
+                v = s_.value
+                if isinstance(v, (ast.ListComp, ast.GeneratorExp)) and isinstance(v.elt, ast.Attribute) and v.elt.attr == "spec" and mentions_name(v.generators[0].iter, f.params[0]) and all("hasattr" in unparse(c) for c in v.generators[0].ifs):
+                    return True
+            return False
+
+        for r in raises:
+            lp = cfg.nodes[r.id].loops
+            if not lp or not isinstance(cfg.nodes[lp[-1]].stmt, ast.For):
+                continue
+            L = cfg.nodes[lp[-1]].stmt
+            if not (isinstance(L.target, ast.Name) and specs_of_all(L.iter, lp[-1])):
+                continue
+            for t, pol, b in cfg.branch_conditions(r.id):
+                if not cfg.in_loop(b, lp[-1]):
+                    continue
+                for fact, fp in conjuncts(t, pol):
+                    if isinstance(fact, ast.Compare) and len(fact.ops) == 1 and isinstance(fact.ops[0], (ast.Eq, ast.NotEq)):
+                        differs = isinstance(fact.ops[0], ast.NotEq) == fp
+                        l, r_ = fact.left, fact.comparators[0]
+                        var = L.target.id
+                        whole = (isinstance(l, ast.Name) and l.id == var) or (isinstance(r_, ast.Name) and r_.id == var)
+                        other = r_ if isinstance(l, ast.Name) and l.id == var else l
+                        first = isinstance(other, ast.Subscript) and isinstance(other.slice, ast.Constant) and other.slice.value == 0 and ast.dump(other.value) == ast.dump(L.iter)
+                        if differs and whole and first:
+                            ok, why = True, ""
     ctx.ob(f, raises[0].stmt if raises else f.node, ok, "check_array_specs raises ValueError unless all specs == the first (equality by value: an equal spec built elsewhere — explicitly, or by unpickling — must combine)" + ("" if ok else f" — {why}"), sel="check:forall", props=["C18", "C19", "C20"])
     rets = cfg.returns()
     okr = bool(rets) and all(r.stmt.value is not None and isinstance(r.stmt.value, ast.Attribute) and r.stmt.value.attr == "spec" and mentions_name(r.stmt.value, f.params[0]) for r in rets)
@@ -421,6 +453,12 @@ def spec_thread(ctx: Ctx) -> None:
                 why = f"spec comes from parameter `{v[1]}`"
             elif v is not None and v[0] == "expr":
                 rs = fl.roots(v[1], cfg.node_of(c))
+                # spec0 = next((a.spec for a in args if hasattr(a, "spec")), spec): first operand's spec
+                if rs == {"call:next"} and isinstance(v[1], ast.Name):
+                    for s_ in fl.rdefs(v[1].id, cfg.node_of(c)):
+                        nv = s_.value
+                        if isinstance(nv, ast.Call) and isinstance(nv.func, ast.Name) and nv.func.id == "next" and nv.args and isinstance(nv.args[0], (ast.GeneratorExp, ast.ListComp)) and isinstance(nv.args[0].elt, ast.Attribute) and nv.args[0].elt.attr == "spec":
+                            rs = {"elem.spec"}
                 good = lambda r: ".spec" in r or f"call:{CHECK}" in r or r in ("param:spec", "param:spec0") or (r.startswith("free:") and r.rsplit(":", 1)[-1].startswith("spec")) or r.endswith(":spec")
                 neutral = lambda r: r == "const:None" or r.startswith(("item(new:", "new:"))
                 ok = bool(rs) and all(good(r) or neutral(r) for r in rs) and any(good(r) for r in rs)
